@@ -47,6 +47,15 @@ Definition covering_has_L (i : kern_in) (a b : str) : bool :=
                      (existsb (fun g => mem g (ki_bidiL i)) m1 || existsb (fun g => mem g (ki_bidiL i)) m2))
           (live_kerning i).
 
+(* a pair that the writer routes to this (right-to-left) script's own lookup -- one of the glyphs belongs to the
+   script explicitly -- and in which no glyph, nor any glyph of a rule covering it, is of an L type (L, AN, EN):
+   such a pair is right-to-left, also when its glyphs carry no strong bidi class (e.g. U+066A, U+0609) *)
+Definition explicit_in (i : kern_in) (s : str) (g : str) : bool :=
+  match assoc g (ki_scripts i) with Some l => mem s l | None => false end.
+Definition rtl_strict (i : kern_in) (script a b : str) : bool :=
+  (explicit_in i script a || explicit_in i script b) &&
+  negb (mem a (ki_bidiL i)) && negb (mem b (ki_bidiL i)) && negb (covering_has_L i a b).
+
 Definition DFLT : str := [68; 70; 76; 84].
 
 (* result codes: 0 ok, 1 wrong value on an eligible pair, 2 value neither 0 nor the UFO value,
@@ -60,9 +69,9 @@ Definition check_pair (i : kern_in) (script : str) (rtl : bool) (a b : str) (xa 
   else if eligible && negb (opposite_bidi i a b) then
     if negb (Z.eqb xa vz) then 1
     else if rtl then
-      (* strong right-to-left glyphs (and no L-type glyph in any rule): placement = advance;
-         otherwise (neutral glyphs, digits) the writers may emit a plain advance *)
-      (if Z.eqb xp xa || (negb (mem a (ki_bidiR i) && mem b (ki_bidiR i) && negb (covering_has_L i a b)) && Z.eqb xp 0) then 0 else 4)
+      (* a right-to-left pair (see rtl_strict): placement = advance; otherwise (common-script glyphs served by the
+         DFLT lookups, digits) a plain advance is what the writers emit *)
+      (if Z.eqb xp xa || (negb (rtl_strict i script a b) && Z.eqb xp 0) then 0 else 4)
     else (if Z.eqb xp 0 then 0 else 4)
   else if Z.eqb xa vz || Z.eqb xa 0 then
     (if Z.eqb xp 0 || Z.eqb xp xa then 0 else 4)
